@@ -4,7 +4,7 @@ import "strings"
 
 func f4Job(name, entry string, n int, reach []string, asserts []string, bound string) *Job {
 	return &Job{Name: name, Pkg: "ti", Entry: entry, N: n, Budget: 3000000, MaxDepth: 300, Reach: reach, Asserts: asserts, Replay: "custom", Config: "core", StubNoRepro: true,
-		Bound: bound + "; configuration: core subset of the shipped test configuration plus the verification-only class Sym"}
+		Bound: bound + "; leaf kinds range over NilClass/Integer/String/Bool (thorough tier: + Float, Symbol); configuration: core subset of the shipped test configuration plus the verification-only class Sym"}
 }
 
 var f4Stubs = []string{"verification-only builtin class Sym (installed through the real defineBuiltinStaticMethod): Sym.a/b/c return a value of solver-chosen kind (NilClass, Integer, String, Bool, Float, Symbol), Sym.u / Sym.w unions of 2 / 3 distinct solver-chosen kinds", "os.Exit / fmt.Println captured"}
